@@ -84,10 +84,18 @@ def dump_mir(work, target="bin", log=None):
         return f.read()
 
 
+PROMOTED = {}   # 'path::promoted[N]' -> variant name (unit enum constants), refreshed by parse_mir
+
+
 def parse_mir(text):
     fns = {}
     cur = None
     bb = None
+    PROMOTED.clear()
+    for m in re.finditer(r"^const (\S.*?::promoted\[\d+\]): &[^=]* = \{\n(.*?)^\}", text, re.S | re.M):
+        vm = re.search(r"_1 = (?:[\w:<>', ]*::)?(\w+);", m.group(2))
+        if vm:
+            PROMOTED[m.group(1)] = vm.group(1)
     for raw in text.split("\n"):
         if raw.startswith("fn "):
             m = re.match(r"fn (.+?)\((.*)\) -> (.*) \{$", raw)
@@ -271,7 +279,7 @@ class Engine:
     # ---------------------------------------------------------------- relevance slicing
     MODELLED = re.compile(r"(::len$|as Deref>::deref$|as DerefMut>::deref_mut$|as AsRef<.*>>::as_ref$|::as_slice$|::as_path$|cmp::min::|cmp::max::|"
                           r"::saturating_sub$|::saturating_add$|as Try>::branch$|as FromResidual<.*>>::from_residual$|as Iterator>::position::<|"
-                          r"::iter$|as Index<.*>>::index$|as IntoIterator>::into_iter$)")
+                          r"::iter$|as Index<.*>>::index$|as IntoIterator>::into_iter$|as Iterator>::enumerate$|as Iterator>::next$|as Partial(Eq|Ord)>::(eq|ne|ge|gt|le|lt)$)")
 
     def compute_tracked(self, seeds, extra_modelled=None):
         """Locals (and, for aggregates built once by an aggregate rvalue, individual fields) whose
@@ -395,6 +403,30 @@ class Engine:
         """Backward dataflow over the MIR CFG: locals live at block entry.  A bare `_N = ...`
         destination is a definition; every other mention of `_N` is a use."""
         use, dfn, succ = {}, {}, {}
+        # a borrowed local stays live as long as the reference does
+        borrow = {}
+        for bb, stmts in self.fn.blocks.items():
+            for s in stmts:
+                m = re.match(r"(_\d+) = &(?:raw (?:const|mut) )?(?:mut )?(.*)$", s)
+                if m:
+                    locs = re.findall(r"_\d+", m.group(2))
+                    if locs:
+                        borrow.setdefault(m.group(1), set()).add(locs[0])
+                m = re.match(r"(_\d+) = (?:copy|move) (_\d+)$", s)
+                if m and m.group(2) in borrow:
+                    borrow.setdefault(m.group(1), set()).update(borrow[m.group(2)])
+
+        def with_borrows(locs):
+            out = set(locs)
+            work = list(locs)
+            while work:
+                x = work.pop()
+                for y in borrow.get(x, ()):
+                    if y not in out:
+                        out.add(y)
+                        work.append(y)
+            return out
+
         for bb, stmts in self.fn.blocks.items():
             u, d = set(), set()
             for s in stmts:
@@ -405,7 +437,7 @@ class Engine:
                 dst = None
                 if m:
                     dst, rhs = m.group(1), m.group(2)
-                for loc in re.findall(r"_\d+", rhs):
+                for loc in with_borrows(re.findall(r"_\d+", rhs)):
                     if loc not in d:
                         u.add(loc)
                 if dst is not None:
@@ -446,6 +478,9 @@ class Engine:
                 if m.group(1) in live:
                     keep[k] = v
                     roots.append(v)
+            elif k.startswith("ghost:") or k.startswith("prom:"):
+                keep[k] = v
+                roots.append(v)
         # abstract objects reachable through refs
         changed = True
         reach = set()
@@ -555,14 +590,13 @@ class Engine:
 
     def write_path(self, st, path, val):
         # overwrite: forget explicit sub-entries
-        pref1, pref2 = path + ".", path + "@"
-        for k in [k for k in st.store if k.startswith(pref1) or k.startswith(pref2)]:
+        for k in [k for k in st.store if k.startswith((path + ".", path + "@", path + "#"))]:
             del st.store[k]
         st.store[path] = val
 
     def copy_value(self, st, src_path, dst_path, ty):
         v = self.read_path(st, src_path, ty)
-        subs = [(k, val) for k, val in st.store.items() if k.startswith(src_path + ".") or k.startswith(src_path + "@")]
+        subs = [(k, val) for k, val in st.store.items() if k.startswith((src_path + ".", src_path + "@", src_path + "#"))]
         self.write_path(st, dst_path, v)
         for k, val in subs:
             st.store[dst_path + k[len(src_path):]] = val
@@ -711,6 +745,9 @@ class Engine:
         stmts = self.fn.blocks[bb]
         for idx, s in enumerate(stmts):
             site = "%s_%d_v%d" % (bb, idx, st.visits.get(bb, 1))
+            hs = self.hooks.get("on_stmt")
+            if hs:
+                hs(self, st, bb, s)
             if s.startswith(("StorageLive", "FakeRead", "nop", "PlaceMention", "Retag", "AscribeUserType", "Coverage", "ConstEvalCounter", "Deinit", "BackwardIncompatibleDropHint")):
                 continue
             m = re.match(r"StorageDead\((_\d+)\)$", s)
@@ -775,7 +812,7 @@ class Engine:
                     out.append((tgt, s2))
                 return out
             # call terminators
-            cm = re.match(r"(?:(.+?) = )?([^=].*?)\((.*)\) -> (?:\[return: (bb\d+), unwind[^\]]*\]|unwind .*)$", s)
+            cm = re.match(r"(?:(.+?) = )?([^=].*?)\((.*)\) -> (?:\[return: (bb\d+), unwind[^\]]*\]|unwind .*|bb\d+)$", s)
             if cm and self.looks_like_call(s):
                 dst, callee, args, nxt = cm.group(1), cm.group(2), cm.group(3), cm.group(4)
                 return self.do_call(st, bb, site, s, dst, callee.strip(), split_top(args), nxt)
@@ -792,7 +829,7 @@ class Engine:
         return []
 
     def looks_like_call(self, s):
-        return re.search(r"\) -> (\[return: bb\d+, unwind|unwind )", s) is not None and not s.startswith(("drop(", "assert(", "switchInt("))
+        return re.search(r"\) -> (\[return: bb\d+, unwind|unwind |bb\d+$)", s) is not None and not s.startswith(("drop(", "assert(", "switchInt("))
 
     # ---------------------------------------------------------------- assignment
     def assign(self, st, dst, rhs, site):
@@ -816,11 +853,20 @@ class Engine:
             spath, sty = self.resolve(st, m.group(1))
             self.copy_value(st, spath, dpath, sty if sty != "?" else dty)
             return
+        pm = re.match(r"const (.*::promoted\[\d+\])$", rhs)
+        if pm:
+            name = pm.group(1)
+            hit = [k for k in PROMOTED if name.endswith(k)]
+            if hit and PROMOTED[hit[0]] in self.variants:
+                obj = "prom:" + hit[0]
+                st.store[obj + "#disc"] = z3.BitVecVal(self.variants[PROMOTED[hit[0]]], 64)
+                self.write_path(st, dpath, Ref(obj))
+                return
         v, _, _ = self.operand(st, rhs)
         if v is not None:
             self.write_path(st, dpath, v)
             return
-        m = re.match(r"&(?:raw (?:const|mut) )?(?:mut )?(.+)$", rhs)
+        m = re.match(r"&(?:raw (?:const|mut) )?(?:\(fake(?: \w+)?\) )?(?:mut )?(?:\(fake(?: \w+)?\) )?(.+)$", rhs)
         if m and not rhs.startswith("&&") :
             try:
                 tpath, _ = self.resolve(st, m.group(1))
@@ -1030,6 +1076,9 @@ class Engine:
                     st.store[dpath + k] = val
             else:
                 self.write_path(st, dpath, res)
+        ha = self.hooks.get("after_call")
+        if ha:
+            ha(self, st, bb, site, stmt, dst, callee, args, argv)
         return [(nxt, st)]
 
     def model_call(self, st, bb, site, stmt, dst, callee, args, argv):
@@ -1135,6 +1184,35 @@ class Engine:
                     h(self, st, bb, stmt, ok, "index < len")
                 st.pc.append(ok)
             return None
+        # ---- comparisons of field-less enums (through references)
+        em = re.match(r"<(?:apply::)?(ApplyConfigDoBackups|Verbosity|std::io::ErrorKind|ErrorKind) as (PartialEq|PartialOrd)>::(eq|ne|ge|gt|le|lt)$", c)
+        if em and len(argv) == 2 and isinstance(argv[0][0], Ref) and isinstance(argv[1][0], Ref):
+            da = self.read_path(st, argv[0][0].target + "#disc", "isize")
+            db = self.read_path(st, argv[1][0].target + "#disc", "isize")
+            op = em.group(3)
+            return {"eq": da == db, "ne": da != db, "ge": da >= db, "gt": da > db, "le": da <= db, "lt": da < db}[op]
+        # ---- iterator plumbing: the slice an iterator came from is remembered
+        if re.search(r"as Iterator>::enumerate$|as IntoIterator>::into_iter$|as Iterator>::rev$", c):
+            v, p0, _ = argv[0]
+            if p0 is not None:
+                src = st.store.get(p0 + "#iter_of")
+                if isinstance(src, Ref):
+                    return {"#iter_of": src}
+            return None
+        if re.search(r"<(?:std::iter::)?Enumerate<.*> as Iterator>::next$", c):
+            it = argv[0][0]
+            ln = None
+            if isinstance(it, Ref):
+                src = st.store.get(it.target + "#iter_of")
+                if isinstance(src, Ref):
+                    ln = self.obj_len(st, src.target)
+            if ln is None:
+                return None
+            i = z3.BitVec("c_%s_idx" % site, 64)
+            d = z3.BitVec("c_%s_edisc" % site, 64)
+            st.pc.append(z3.Or(d == 0, d == 1))
+            st.pc.append(z3.Implies(d == 1, z3.ULT(i, ln)))
+            return {"#disc": d, "@Some.0": Agg("en_" + site), "@Some.0.0": i}
         # ---- PartialEq on scalars already handled by MIR ops; diverging calls
         if re.search(r"(panicking::panic|panic_fmt|unwrap_failed|expect_failed|process::exit|panic_const|core::panicking|begin_panic|usage|version)\b", c) and dst is None:
             return "diverge"
@@ -1391,12 +1469,14 @@ def run_vcs(vcs, work, pid, log):
         except Exception as e:  # parse / solver trouble is never a verdict
             import traceback
             r = {"verdict": "inconclusive", "reason": "engine error: %s" % traceback.format_exc()[-800:]}
-        r["name"] = vc["name"]
-        r.setdefault("function", vc.get("function"))
-        r["wall_s"] = round(time.time() - t0, 2)
-        log("  VC %-44s %-12s %5.1fs queries=%s states=%s %s" % (vc["name"], r["verdict"], r["wall_s"], r.get("queries"), r.get("states"),
-                                                                (r.get("reason") or "")[:100]))
-        results.append(r)
+        rs = r if isinstance(r, list) else [r]
+        for r in rs:
+            r.setdefault("name", vc["name"])
+            r.setdefault("function", vc.get("function"))
+            r["wall_s"] = round((time.time() - t0) / len(rs), 2)
+            log("  VC %-60s %-12s %5.1fs queries=%s states=%s %s" % (r["name"][:60], r["verdict"], r["wall_s"], r.get("queries"), r.get("states"),
+                                                                    (r.get("reason") or "")[:100]))
+            results.append(r)
     return results
 
 
